@@ -438,6 +438,60 @@ def check_traverse(w, st, out):
                         differ(path, "traverse_from-simulated-node-differs", dict(whole, prefix=list(pre)), got)
 
 
+def check_iter(w, st, out):
+    """C10: NodeIterator over the real trie against the sorted contents / successor / pre-order
+    the specification computed for this state"""
+    import importlib
+
+    it = importlib.import_module("trie.iter").NodeIterator(w.t)
+    tab = st["iter"]
+    keys = [key_of(k) for k, _ in tab["items"]]
+    vals = [val(*v) for _, v in tab["items"]]
+    bad = 0
+
+    def fail(clause, detail):
+        nonlocal bad
+        bad += 1
+        if bad <= 6:
+            out.append(("C10", clause, detail))
+
+    def run(name, fn):
+        count("iter." + name)
+        try:
+            return fn()
+        except Exception as exc:  # noqa
+            fail(name + "-raised", {"exc": type(exc).__name__, "msg": str(exc)[:160]})
+            return None
+
+    got = run("keys", lambda: list(it.keys()))
+    if got is not None and got != keys:
+        fail("keys-not-the-sorted-contents", {"got": got, "want": keys})
+    got = run("items", lambda: list(it.items()))
+    if got is not None and got != list(zip(keys, vals)):
+        fail("items-not-the-sorted-contents", {"got": got, "want": list(zip(keys, vals))})
+    got = run("values", lambda: list(it.values()))
+    if got is not None and got != vals:
+        fail("values-not-in-key-order", {"got": got, "want": vals})
+    got = run("nodes", lambda: [(tuple(int(x) for x in p), describe_node(n)) for p, n in it.nodes()])
+    want = [(tuple(e["p"]), {"t": e["t"], "subs": e["subs"], "v": val(*e["v"]), "suffix": e["suffix"]})
+            for e in tab["nodes"]]
+    if got is not None and got != want:
+        fail("nodes-not-the-preorder-of-the-trie", {"got": got[:8], "want": want[:8]})
+    first = key_of(tab["first"]["k"]) if tab["first"]["some"] else None
+    got = run("next", lambda: ("r", it.next()))
+    if got is not None and got[1] != first:
+        fail("next()-not-the-smallest-key", {"got": got[1], "want": first})
+    got = run("next", lambda: ("r", it.next(None)))
+    if got is not None and got[1] != first:
+        fail("next(None)-not-the-smallest-key", {"got": got[1], "want": first})
+    for e in tab["next"]:
+        q = key_of(e["q"])
+        wantk = key_of(e["r"]["k"]) if e["r"]["some"] else None
+        got = run("next", lambda: ("r", it.next(q)))
+        if got is not None and got[1] != wantk:
+            fail("next(k)-not-the-strict-successor", {"k": q, "got": got[1], "want": wantk})
+
+
 def alter(raw):
     """well-formed variants of a raw node whose hash differs"""
     outs = []
@@ -656,6 +710,8 @@ def replay(obj, mod, rz, opts=frozenset()):
         check_traverse(w, st, out)
     if "proofs" in st:
         check_proofs(w, st, out)
+    if "iter" in st:
+        check_iter(w, st, out)
     if rz.size_mismatch:
         out.append(("machinery", "spec-size-arithmetic-differs-from-rlp", {"n": rz.size_mismatch[:2]}))
         del rz.size_mismatch[:]
